@@ -380,6 +380,10 @@ HDR_RANGES = {0: 2048, 6: 2048, 1: 16384, 7: 16384, 2: 4, 13: 4, 3: 2, 11: 2, 4:
 HDR_BND = {2048: BND["apid"], 16384: BND["count"], 65536: BND["dlen"], 4: [0, 1, 2, 3], 2: [0, 1]}
 HDR_BAD = {2048: [2048, 4095, 4096, -1, 2 ** 16], 16384: [16384, 32768, 65535, -1, 2 ** 16], 65536: [65536, -1, 2 ** 32],
            4: [4, 7], 2: [2, 3]}
+RANGE_SETTERS = (0, 6, 1, 7, 5)          # the setters of the three fields whose ranges the property names
+OUT_OF_RANGE = {2048: [2048, 2049, 4095, 4096, 6143, 32767, 32768, 65535, 65536, 65537, 2 ** 32, 2 ** 64, -1, -2, -2048, -2 ** 63],
+                16384: [16384, 16385, 32767, 32768, 49151, 49152, 65535, 65536, 65537, 2 ** 32, 2 ** 64, -1, -2, -16384, -2 ** 63],
+                65536: [65536, 65537, 131071, 2 ** 32, 2 ** 64, -1, -2, -65536, -2 ** 63]}
 FIELD_OF = {0: 1, 6: 1, 1: 2, 7: 2, 5: 3, 4: 4, 12: 4, 2: 5, 13: 5, 3: 0, 11: 0}   # position in the constructor arguments
 
 
@@ -403,6 +407,8 @@ def rand_hdr_ops(rng, n, bad=0.12):
     ops, last = [], None
     for _ in range(n):
         r = rng.random()
+        if ops and len(ops[-1]) > 1 and ops[-1][0] in RANGE_SETTERS and not 0 <= ops[-1][1] < HDR_RANGES[ops[-1][0]] and r < 0.6:
+            r = 0.6               # an APID / count / data length was just pushed out of range: pack() follows more often than not
         if r < 0.5:
             o = rand_hdr_setter(rng, bad)
             if rng.random() < 0.1 and last is not None:
@@ -444,6 +450,39 @@ def hist_streams(tier, rng):
         for kt, ks_, kf in itertools.product((3, 11), (4, 12), (2, 13)):
             cases.append((120, [rand_hdr_args(rng), [rng.randrange(3)], [kt, t], [ks_, s_], [kf, f], [8], [10], [9]]))
     yield "exh_setter_values", "exact", cases
+    # 8b. APID / sequence count / data length pushed out of range through every setter route: pack() follows
+    #     immediately (must refuse with ValueError, nothing encoded), the object is looked at, compared, packed again,
+    #     then healed by an in-range assignment and packed; two and three fields out of range healed one by one
+    cases = []
+    for k in RANGE_SETTERS:
+        m = HDR_RANGES[k]
+        for v in OUT_OF_RANGE[m]:
+            good = rng.choice(HDR_BND[m])
+            cases.append((120, [rand_hdr_args(rng), [rng.randrange(3)], [k, v], [8], [9], [10], [8], [k, good], [8], [10], [9]]))
+            cases.append((120, [rand_hdr_args(rng), [rng.randrange(3)], [8], [k, v], [8], [8], [9]]))
+        near = list(range(m, m + (300 if big else 40))) + list(range(-(60 if big else 12), 0)) + \
+            [x for x in range(65536 - 6, 65536 + 6) if x >= m]
+        for i in range(0, len(near), 4):
+            ops = []
+            for v in near[i:i + 4]:
+                ops += [[k, v], [8]]
+            cases.append((120, [rand_hdr_args(rng), [rng.randrange(3)]] + ops + [[k, rng.randrange(m)], [8]]))
+    for _ in range(1500 if big else 300):
+        ks = rng.sample([rng.choice([0, 6]), rng.choice([1, 7]), 5], rng.choice([2, 3]))
+        ops = [[k, rng.choice(OUT_OF_RANGE[HDR_RANGES[k]])] for k in ks] + [[8], [9]]
+        rng.shuffle(ks)
+        for k in ks:
+            ops += [[k, rng.choice(HDR_BND[HDR_RANGES[k]]) if rng.random() < 0.5 else rng.randrange(HDR_RANGES[k])], [8]]
+        cases.append((120, [rand_hdr_args(rng), [rng.randrange(3)]] + ops + [[10], [9]]))
+    for k in RANGE_SETTERS:           # the same through a SpacePacket's header
+        m = HDR_RANGES[k]
+        for v in OUT_OF_RANGE[m]:
+            h = rand_hdr_args(rng)
+            sec = [1] + [rng.randrange(256) for _ in range(rng.choice([0, 1, 4]))]
+            ud = [1] + [rng.randrange(256) for _ in range(rng.choice([0, 1, 9]))]
+            cases.append((123, [h, sec, ud, [rng.randrange(2), rng.randrange(2)], [20 + k, v], [32], [34], [33], [32],
+                                [20 + k, rng.randrange(m)], [32], [33], [34]]))
+    yield "hdr_out_of_range_pack", "exact", cases
     # 9. decoding from (long) bytearrays that are overwritten afterwards: every buffer length 6..1100,
     #    4 KiB, 64 KiB; two headers decoded in a row (equal, differing in one bit, unrelated)
     cases = []
@@ -477,8 +516,10 @@ def hist_streams(tier, rng):
         ops = []
         for _ in range(rng.randrange(1, 11)):
             r = rng.random()
+            if ops and len(ops[-1]) > 1 and ops[-1][0] - 20 in RANGE_SETTERS and not 0 <= ops[-1][1] < HDR_RANGES[ops[-1][0] - 20]:
+                r = 0.5 if r < 0.7 else r     # the header was just pushed out of range: pack() follows
             if r < 0.3:
-                o = rand_hdr_setter(rng, 0.05, (0, 1, 2, 3, 4, 5, 6, 7))
+                o = rand_hdr_setter(rng, 0.12, (0, 1, 2, 3, 4, 5, 6, 7))
                 o = [20 + o[0], o[1]]
             elif r < 0.45:
                 o = [rng.choice([30, 31]), 1] + [rng.randrange(256) for _ in range(rng.choice([0, 1, 3, 8]))] if rng.random() < 0.8 \
@@ -765,10 +806,43 @@ def fields_valid(fl):
 HDR_FIELD_POS = {0: 3, 6: 3, 1: 5, 7: 5, 2: 4, 13: 4, 3: 1, 11: 1, 4: 2, 12: 2, 5: 6}    # setter -> position in (v,t,s,ap,f,c,d)
 
 
+def range_ok(fl):
+    """the three fields whose ranges the property names: APID, sequence count, data length"""
+    v, t, s, ap, f, c, d = fl
+    return 0 <= ap < 2048 and 0 <= c < 16384 and 0 <= d < 65536
+
+
+def others_ok(fl):
+    """version, packet type, secondary header flag, sequence flags (never validated by the library; a history that
+    leaves them outside their ranges is mirrored by the model only)"""
+    v, t, s, ap, f, c, d = fl
+    return 0 <= v < 8 and t in (0, 1) and s in (0, 1) and 0 <= f < 4
+
+
+def _refused(row):
+    return len(row) == 2 and row[0] == 1 and row[1] in (1, 2, 3)
+
+
+def out_of_range_pack(entry, what, cur, row):
+    """pack() in a state whose APID / sequence count / data length is out of range: 'refused with ValueError instead of
+    being encoded'"""
+    bad = [n for n, x, hi in (("APID", cur[3], 2048), ("sequence count", cur[5], 16384), ("data length", cur[6], 65536)) if not 0 <= x < hi]
+    if row[:1] == [0]:
+        return ("C01/%s/out-of-range-encoded" % entry,
+                "%s: %s out of range (fields %s), yet pack() encoded it: %s" % (what, " and ".join(bad), cur, " ".join("%02x" % x for x in row[1:13])))
+    if not _refused(row):
+        return ("C01/%s/out-of-range-wrong-error" % entry,
+                "%s: %s out of range (fields %s): pack() raised %s, the property prescribes ValueError" % (
+                    what, " and ".join(bad), cur, core.ERR_NAMES.get(row[1], row[1]) if len(row) > 1 else row))
+    return None
+
+
 def oracle_hdr_history(a, ires):
-    """after any sequence of setter calls whose final values are in range the object reports those values,
-    packs to the six octets the standard prescribes for them, reports data length + 7 and equals a freshly
-    constructed header with the same values; the caller's PacketId / PacketSeqCtrl are untouched"""
+    """after any sequence of setter calls the object reports the assigned values; when APID, sequence count and data
+    length are in range it packs to the six octets the standard prescribes for them, reports data length + 7 and equals
+    a freshly constructed header with the same values; when one of them is out of range pack() refuses with ValueError
+    (nothing is encoded), the object is unchanged by the refusal and a later in-range assignment heals it; the caller's
+    PacketId / PacketSeqCtrl are untouched"""
     l, kind = a[0], a[1][0]
     t, ap, c, d, s, f, v = l
     cur = [v, t, s, ap, f, c, d]
@@ -781,9 +855,21 @@ def oracle_hdr_history(a, ires):
         k = o[0] if o else 9
         if k in HDR_FIELD_POS:
             cur[HDR_FIELD_POS[k]] = o[1]
-        if not fields_valid(cur):
-            continue
         what = "path %d, start %s, operations %s" % (kind, l, a[2:2 + n + 1])
+        if not range_ok(cur):
+            # the range checks come before anything is encoded: judged whatever version / type / flags are
+            if k == 8:
+                r = out_of_range_pack("SpacePacketHeader.pack", what, cur, row)
+                if r is not None:
+                    return r
+            elif k == 10:
+                if not _refused(row):
+                    return ("C01/SpacePacketHeader.__init__/range", "%s: a header built from the out-of-range values %s was not refused with ValueError: %s" % (what, cur, row))
+            elif row[:7] != cur or row[10:] != [6]:
+                return ("C01/SpacePacketHeader.setters/fields", "%s: object reports %s, the values assigned are %s" % (what, row, cur))
+            continue
+        if not others_ok(cur):
+            continue
         if k == 8:
             if row != [0] + layout(*cur):
                 return ("C01/SpacePacketHeader.setters/pack-layout", "%s: pack() = %s, the standard says %s for %s" % (what, row, layout(*cur), cur))
@@ -837,9 +923,21 @@ def oracle_space_packet(op, a, ires, err, code):
             sec = o[2:] if o[1] else None
         elif k == 31:
             ud = o[2:] if o[1] else None
-        if not fields_valid(cur):
-            continue
         what = "start %s, operations %s" % (a[:3], a[4:4 + n + 1])
+        if not range_ok(cur):
+            # the header is packed first: refused with ValueError whatever the parts are; nothing else changes
+            if k == 32:
+                r = out_of_range_pack("SpacePacket.pack", what, cur, row)
+                if r is not None:
+                    return r
+            elif k == 33:
+                if not _refused(row):
+                    return ("C01/SpacePacketHeader.__init__/range", "%s: a header built from the out-of-range values %s was not refused with ValueError: %s" % (what, cur, row))
+            elif row != [cur[3], cur[5], cur[2], cur[6]]:
+                return ("C01/SpacePacket/fields", "%s: packet reports %s, header values %s" % (what, row, cur))
+            continue
+        if not others_ok(cur):
+            continue
         if k == 32:
             exp = sp_expected(cur, sec, ud)
             if exp is None:
